@@ -3,7 +3,7 @@ handed to the implementation are exactly the rationals handed to the Coq model."
 import numpy as np
 
 KINDS = ["generic", "generic", "generic", "rankdef", "duprows", "zerorows", "allzero", "intties",
-         "illcond", "negative_lead"]
+         "illcond", "negative_lead", "sparseint", "sparseint", "nearrank"]
 
 
 def shape(rng, nmax=9, mmax=5):
@@ -43,6 +43,18 @@ def matrix(rng, n, m, kind=None):
         B = np.zeros((n, m))
     elif kind == "intties":
         B = rng.integers(-2, 3, size=(n, m)).astype(float)
+    elif kind == "sparseint":
+        # many exact zeros: pivot columns whose leading entry in the trailing block is exactly 0
+        B = (rng.integers(-3, 4, size=(n, m)) * (rng.random((n, m)) < 0.5)).astype(float)
+        if n > 1 and m > 1 and rng.random() < 0.7:
+            i = int(rng.integers(0, n))
+            B[i] = rng.integers(2, 5, size=m) * rng.choice([-1.0, 1.0], size=m)
+            B[i, 0] = 0.0          # the largest row has a zero in the first mode
+    elif kind == "nearrank":
+        # numerically (not exactly) rank-deficient: low rank plus noise of relative size 2^-30
+        r = max(1, min(n, m) - int(rng.integers(1, 3)))
+        B = (rng.integers(-4, 5, size=(n, r)) @ rng.integers(-3, 4, size=(r, m))).astype(float) / 4.0
+        B = B + rng.integers(-8, 9, size=(n, m)) / 2.0 ** 33
     elif kind == "illcond":
         t = np.arange(1, n + 1, dtype=float) / 2.0
         B = np.vander(t, m, increasing=True)
